@@ -50,7 +50,8 @@ def r1(ctx):
     for fn in ('text::clean', 'text::word_boundaries'):
         b = ctx.body(fn)
         ws = [t for x in [b] + closures_in(ctx, b) for t in x.calls(r'is_whitespace$|is_ascii_whitespace$')]
-        bad = [t for t in ws if (t.callee_res() or '') != WS]
+        # (unicode::is_whitespace is what Character::is_whitespace delegates to: the same predicate, checked above)
+        bad = [t for t in ws if (t.callee_res() or '') not in (WS, 'unicode::is_whitespace')]
         ctx.require(bool(ws) and not bad, b, 'predicate|' + fn.rsplit('::', 1)[-1], '%s decides with Character::is_whitespace' % fn,
                     '%s uses %s' % (fn, [t.callee_res() for t in bad] or 'no whitespace predicate'))
 
@@ -87,10 +88,20 @@ def r2(ctx):
         raise AnchorMissing('iteration of clean()')
     src = loop_source(b, nx[0])
     ok = match(core(src), Call('CharString::chars', Call('CharString::new', ('arg', 1, ANY), ('arg', 2, ANY))))
+    if not ok:
+        # the same pass over the positions 0..cs.len() with cs.get(idx)
+        from rules.common import range_bounds as _rb
+        rb_ = _rb(src)
+        ok = rb_ is not None and rb_[0] == 0 and not isinstance(rb_[1], int) and \
+            match(core(rb_[1]), Call('CharString::len', Call('CharString::new', ('arg', 1, ANY), ('arg', 2, ANY))))
     ctx.require(ok, b, 'iteration', 'clean iterates CS::new(s, use_graphemes).chars() in order', 'clean iterates %s' % show_in(b, src), nx[0].span)
     loop = cfg.innermost_loop(b, nx[0].bb)
     ch = ('unwrap', nosite(sym(b, nx[0].dest)))
     is_ch = Pred(lambda t: nosite(core(t)) == nosite(core(ch)))
+    # the text of the current character: `char.str`, or `cs.get(idx)` in the positional form; its whitespace test: Character::is_whitespace, or
+    # the function it delegates to applied to that text
+    TXT = Pred(lambda t: match(core(t), ('field', is_ch, 'str')) or match(core(t), Call('CharString::get', ANY, is_ch)))
+    WSP = Pred(lambda t: match(t, Call(WS, is_ch)) or match(t, Call('unicode::is_whitespace', TXT)))
     lit = [t for t in b.calls(r'String::push$')]
     cp = [t for t in b.calls(r'String::push_str$')]
     ctx.require(len(lit) == 1 and len(cp) == 1, b, 'sinks', 'one literal push and one character push', 'pushes: %d literal, %d text' % (len(lit), len(cp)))
@@ -106,22 +117,22 @@ def r2(ctx):
     atoms = [(core(t), pol) for t, pol, g in atoms_at(b, lit[0].bb)]
     ok = any(pol is True and match(t, V(flag)) for t, pol in atoms) and \
         any(pol is False and match(t, Call('String::is_empty', V(outv))) for t, pol in atoms) and \
-        any(pol is False and match(t, Call(WS, is_ch)) for t, pol in atoms)
+        any(pol is False and match(t, WSP) for t, pol in atoms)
     ctx.require(ok, b, 'separator-guard', 'a space is emitted only under last_was_whitespace && !output.is_empty() before a non-whitespace char',
                 'a space is emitted under %s' % [('' if pol else '!') + show_in(b, t)[:40] for t, pol in atoms], lit[0].span)
     a = core(sym(b, cp[0].args[1]))
-    ok = match(a, Call('str::trim', ('field', is_ch, 'str'))) or match(a, ('field', is_ch, 'str'))
+    ok = match(a, Call('str::trim', TXT)) or match(a, TXT)
     ctx.require(ok, b, 'append-char', 'the character text (trimmed) is appended', 'appended: %s' % show_in(b, a), cp[0].span)
     atoms = [(core(t), pol) for t, pol, g in atoms_at(b, cp[0].bb)]
-    ctx.require(any(pol is False and match(t, Call(WS, is_ch)) for t, pol in atoms), b, 'append-non-ws', 'only non-whitespace characters are appended', None, cp[0].span)
+    ctx.require(any(pol is False and match(t, WSP) for t, pol in atoms), b, 'append-non-ws', 'only non-whitespace characters are appended', None, cp[0].span)
     # skip path: is_whitespace true edge reaches the latch without any push
-    ws_true = [(g.block, g.target) for g in edge_guards(b) if g.atom()[1] is True and match(core(g.atom()[0]), Call(WS, is_ch))]
+    ws_true = [(g.block, g.target) for g in edge_guards(b) if g.atom()[1] is True and match(core(g.atom()[0]), WSP)]
     if not ws_true:
         raise AnchorMissing('is_whitespace branch of clean()')
     r = cfg.reach(b, ws_true[0][1], removed_blocks=[loop.header])
     ctx.require(lit[0].bb not in r and cp[0].bb not in r, b, 'skip-ws', 'whitespace characters append nothing', None)
     # every non-whitespace character is appended: from the false edge the push_str is unavoidable
-    ws_false = [(g.block, g.target) for g in edge_guards(b) if g.atom()[1] is False and match(core(g.atom()[0]), Call(WS, is_ch))]
+    ws_false = [(g.block, g.target) for g in edge_guards(b) if g.atom()[1] is False and match(core(g.atom()[0]), WSP)]
     ok = bool(ws_false) and all(cfg.must_pass(b, ws_false[0][1], l, via_blocks=[cp[0].bb]) for l in loop.latches)
     ctx.require(ok, b, 'keep-non-ws', 'every non-whitespace character is appended', 'a non-whitespace character can be dropped')
     # flag discipline
@@ -137,7 +148,7 @@ def r2(ctx):
     ctx.require(len(rv) == 1 and match(core(rv[0][0]), V(outv)), b, 'result', 'returns the accumulated output', None)
     # every character is visited: the scan is left only when the characters are exhausted (a length cap or an early exit drops the rest of the text)
     from rules.common import full_traversal
-    full_traversal(ctx, b, Call('CharString::chars', ANY), 'scan-complete', 'clean')
+    full_traversal(ctx, b, Pred(lambda u: match(u, Call('CharString::chars', ANY)) or match(u, ('agg', 'adt', Pred(lambda n: n.endswith('Range::Range')), ANY))), 'scan-complete', 'clean')
     # ... and the output is only appended to
     for t in b.terms('call'):
         if not t.args or t.args[0].place is None or 'mut' not in b.local_ty(t.args[0].place.local):
